@@ -15,6 +15,7 @@ from typing import Union
 
 from liquid import Markup
 from liquid.builtin.expressions import Nil
+from liquid.builtin.expressions.logical import is_truthy
 from liquid.exceptions import FilterArgumentError
 from liquid.exceptions import FilterError
 from liquid.exceptions import FilterItemTypeError
@@ -158,7 +159,7 @@ def where(sequence: ArrayT, attr: object, value: object = None) -> list[object]:
     if value is not None and not is_undefined(value):
         return [itm for itm in sequence if _getitem(itm, attr) == value]
 
-    return [itm for itm in sequence if _getitem(itm, attr) not in (False, None)]
+    return [itm for itm in sequence if is_truthy(_getitem(itm, attr))]
 
 
 @sequence_filter
@@ -170,7 +171,7 @@ def reject(sequence: ArrayT, attr: object, value: object = None) -> list[object]
     if value is not None and not is_undefined(value):
         return [itm for itm in sequence if _getitem(itm, attr) != value]
 
-    return [itm for itm in sequence if _getitem(itm, attr) in (False, None)]
+    return [itm for itm in sequence if not is_truthy(_getitem(itm, attr))]
 
 
 @sequence_filter
@@ -180,7 +181,7 @@ def find(sequence: ArrayT, attr: object, value: object = None) -> object:
         return next((itm for itm in sequence if _getitem(itm, attr) == value), None)
 
     return next(
-        (itm for itm in sequence if _getitem(itm, attr) not in (False, None)), None
+        (itm for itm in sequence if is_truthy(_getitem(itm, attr))), None
     )
 
 
@@ -198,7 +199,7 @@ def find_index(
         (
             i
             for i, itm in enumerate(sequence)
-            if _getitem(itm, attr) not in (False, None)
+            if is_truthy(_getitem(itm, attr))
         ),
         None,
     )
@@ -210,7 +211,7 @@ def has(sequence: ArrayT, attr: object, value: object = None) -> bool:
     if value is not None and not is_undefined(value):
         return any((itm for itm in sequence if _getitem(itm, attr) == value))
 
-    return any((itm for itm in sequence if _getitem(itm, attr) not in (False, None)))
+    return any((itm for itm in sequence if is_truthy(_getitem(itm, attr))))
 
 
 @sequence_filter
